@@ -228,7 +228,12 @@ pub struct Ctx {
     pub unique_tokens: Vec<String>,
     /// per call site: (order tag, number of scalars, per-bit count of ones) for the driver's 8-sigma test
     pub bit_stats: BTreeMap<String, (String, u64, Vec<u64>)>,
+    /// per call site: sum over scalars of popcount(x XOR rotl(x, s)) for s in ROT_SHIFTS (structure / periodicity monitor)
+    pub rot_stats: BTreeMap<String, (u64, Vec<u64>)>,
 }
+
+/// rotations are taken inside the low 192 bits, which are uniform to within 2^-63 for both group orders
+pub const ROT_SHIFTS: [u32; 6] = [1, 8, 16, 32, 64, 96];
 
 impl Ctx {
     pub fn new(prop: &str, tier: &str, seed: u64, shard: usize, nshards: usize, profile: &str, journal: Option<&str>) -> Ctx {
@@ -257,6 +262,7 @@ impl Ctx {
             max_samples: 8,
             unique_tokens: vec![],
             bit_stats: BTreeMap::new(),
+            rot_stats: BTreeMap::new(),
         }
     }
     /// Work partitioning: case number i of a section belongs to exactly one shard.
@@ -347,6 +353,19 @@ impl Ctx {
             }
         }
     }
+    pub fn rot(&mut self, site: &str, value_be: &[u8; 32]) {
+        let x = be_to_limbs(value_be);
+        let bit = |i: u32| -> u64 { (x[(i / 64) as usize] >> (i % 64)) & 1 };
+        let e = self.rot_stats.entry(site.to_string()).or_insert_with(|| (0, vec![0; ROT_SHIFTS.len()]));
+        e.0 += 1;
+        for (k, s) in ROT_SHIFTS.iter().enumerate() {
+            let mut c = 0u64;
+            for i in 0..192u32 {
+                c += bit(i) ^ bit((i + s) % 192);
+            }
+            e.1[k] += c;
+        }
+    }
     pub fn journal_call(&mut self, op: &str, detail: &str) {
         self.case_counter += 1;
         if let Some(f) = self.journal.as_mut() {
@@ -383,6 +402,7 @@ impl Ctx {
             "selftest": self.selftest.iter().map(|(n, ok)| json!({"name": n, "ok": ok})).collect::<Vec<_>>(),
             "wall_s": wall_s,
             "unique_tokens": self.unique_tokens,
+            "rot_stats": self.rot_stats.iter().map(|(k, v)| (k.clone(), json!({"n": v.0, "sums": v.1, "shifts": ROT_SHIFTS}))).collect::<Map<String, Value>>(),
             "bit_stats": self.bit_stats.iter().map(|(k, v)| (k.clone(), json!({"order": v.0, "n": v.1, "ones": v.2}))).collect::<Map<String, Value>>(),
         })
     }
